@@ -37,6 +37,9 @@ def machines():
     # nets that already carry the names unroll gives to the per-step io copies (`<io>_cg_unroll_<step>`)
     yield "nets-named-like-the-step-copies", build({"a": ("input", []), "a_cg_unroll_0": ("input", []), "s": ("input", []), "s_cg_unroll_1": ("input", []), "o": ("and", ["a", "a_cg_unroll_0", "s"]),
                                                     "y": ("xor", ["s", "s_cg_unroll_1"])}, outputs=["o", "y"]), {"o": "s"}
+    # a state *output* that is a free primary input marked as output (the next state is what was applied last step): its per-step
+    # copies are free inputs, not buffers waiting for a driver
+    yield "state-output-that-is-a-free-input", build({"s": ("input", []), "p": ("input", []), "x": ("input", []), "y": ("and", ["s", "p"]), "z": ("xor", ["s", "x"])}, outputs=["p", "y", "z"]), {"p": "s"}
     yield "state-out-used-as-output", build({"x": ("input", []), "s": ("input", []), "ns": ("or", ["x", "s"])}, outputs=["ns"]), {"ns": "s"}
 
 
@@ -129,6 +132,19 @@ def seq_machines():
                 "v.clk": ("bb_input", ["clk"]), "v.d": ("bb_input", ["x"]), "v.q": ("bb_output", []),
                 "g": ("xnor", ["x", "w"]), "y": ("buf", ["g"])}, outputs=["y"], blackboxes={"u": ff, "v": ff})
     yield "flop-with-an-unconnected-q-pin", c9, ff
+    # ordinary nets named after a flop instance (`<inst>_next` drives its data pin, `<inst>_qb` reads its output): only the flattened
+    # pins other than d / q go, not everything whose name starts with the instance name
+    c10 = build({"x": ("input", []), "clk": ("input", []), "r0.clk": ("bb_input", ["clk"]), "r0.d": ("bb_input", ["r0_next"]), "r0.q": ("bb_output", []), "r0_cur": ("buf", ["r0.q"]),
+                 "r0_qb": ("not", ["r0_cur"]), "r0_next": ("xor", ["x", "r0_qb"]), "y": ("and", ["x", "r0_cur"])}, outputs=["y", "r0_qb"], blackboxes={"r0": ff})
+    yield "nets-named-after-the-flop-instance", c10, ff
+    # instance names that end in the letters of the q pin / in an underscore (IRQ, Q_, qq): the per-flop dictionary of initial values
+    # is keyed by the instance name, which is the state input's name minus the *suffix* `_q`
+    c11 = build({"x": ("input", []), "clk": ("input", []),
+                 "IRQ.clk": ("bb_input", ["clk"]), "IRQ.d": ("bb_input", ["g0"]), "IRQ.q": ("bb_output", []), "w0": ("buf", ["IRQ.q"]),
+                 "Q_.clk": ("bb_input", ["clk"]), "Q_.d": ("bb_input", ["g1"]), "Q_.q": ("bb_output", []), "w1": ("buf", ["Q_.q"]),
+                 "qq.clk": ("bb_input", ["clk"]), "qq.d": ("bb_input", ["w1"]), "qq.q": ("bb_output", []), "w2": ("buf", ["qq.q"]),
+                 "g0": ("xor", ["x", "w0"]), "g1": ("nand", ["w0", "w2"]), "y": ("or", ["w1", "w2"])}, outputs=["y"], blackboxes={"IRQ": ff, "Q_": ff, "qq": ff})
+    yield "instance-names-ending-in-the-letters-of-the-q-pin", c11, ff
 
 
 # the documented forms of ignore_pins: one name, or a list of names
@@ -238,6 +254,9 @@ def run(chk):
             # a per-flop dictionary that names every flop, written in the opposite order of the instances, with different values
             configs.append((False, {insts[-1]: "0", insts[0]: "1"}))
             configs.append((False, {insts[-1]: "1", insts[0]: "0"}))
+        if len(insts) > 2:
+            configs.append((False, {i_: "1" for i_ in insts}))
+            configs.append((False, {i_: "0" for i_ in insts}))
         for n, caller, tag in [(n_, P, "") for n_ in steps] + [(2, FS, "@full-stack")]:
             for afo, init in configs if caller is P else configs[1::2]:
                 snap = c._snapshot()
